@@ -1,4 +1,535 @@
-From Coq Require Import ZArith NArith List Bool Lia.
-From Otto Require Import Common.Corr C07.Spec C07.Model.
+(* C07 proofs, part 2: laws of the ES5 object model (Spec) over all finite histories *)
+From Coq Require Import ZArith List Bool Lia.
+From Otto Require Import C07.Spec.
 Import ListNotations.
 Open Scope Z_scope.
+
+(* ---------- association lists ---------- *)
+Section AssocFacts.
+Context {P : Type}.
+Implicit Types (l : list (Z * P)) (n m : Z).
+
+Lemma lookup_set_same l n p : lookup (set_prop l n p) n = Some p.
+Proof.
+  induction l as [|[k q] l IH]; cbn.
+  - rewrite Z.eqb_refl. reflexivity.
+  - destruct (k =? n) eqn:E; cbn; rewrite E; auto.
+Qed.
+
+Lemma lookup_set_other l n m p : m <> n -> lookup (set_prop l n p) m = lookup l m.
+Proof.
+  intro Hne. induction l as [|[k q] l IH]; cbn.
+  - destruct (n =? m) eqn:E; auto. apply Z.eqb_eq in E. congruence.
+  - destruct (k =? n) eqn:E; cbn.
+    + apply Z.eqb_eq in E. subst k. destruct (n =? m) eqn:E2; auto. apply Z.eqb_eq in E2. congruence.
+    + destruct (k =? m); auto.
+Qed.
+
+Lemma lookup_del_same l n : lookup (del_prop l n) n = None.
+Proof.
+  induction l as [|[k q] l IH]; cbn; auto.
+  destruct (k =? n) eqn:E; cbn; auto. rewrite E. exact IH.
+Qed.
+
+Lemma lookup_del_other l n m : m <> n -> lookup (del_prop l n) m = lookup l m.
+Proof.
+  intro Hne. induction l as [|[k q] l IH]; cbn; auto.
+  destruct (k =? n) eqn:E; cbn.
+  - apply Z.eqb_eq in E. subst k. destruct (n =? m) eqn:E2; auto. apply Z.eqb_eq in E2. congruence.
+  - destruct (k =? m); auto.
+Qed.
+
+Lemma lookup_none_iff l n : lookup l n = None <-> ~ In n (map fst l).
+Proof.
+  induction l as [|[k q] l IH]; cbn.
+  - tauto.
+  - destruct (k =? n) eqn:E.
+    + apply Z.eqb_eq in E. split; [discriminate | intro H; exfalso; apply H; auto].
+    + apply Z.eqb_neq in E. rewrite IH. tauto.
+Qed.
+
+Lemma names_set_existing l n p q : lookup l n = Some q -> map fst (set_prop l n p) = map fst l.
+Proof.
+  induction l as [|[k r] l IH]; cbn; [discriminate|].
+  destruct (k =? n) eqn:E; cbn; auto. intro H. rewrite IH; auto.
+Qed.
+
+Lemma names_set_new l n p : lookup l n = None -> map fst (set_prop l n p) = map fst l ++ [n].
+Proof.
+  induction l as [|[k r] l IH]; cbn; auto.
+  destruct (k =? n) eqn:E; cbn; [discriminate|]. intro H. rewrite IH; auto.
+Qed.
+
+Lemma in_names_del l n m : In m (map fst (del_prop l n)) -> In m (map fst l) /\ m <> n.
+Proof.
+  induction l as [|[k r] l IH]; cbn; [tauto|].
+  destruct (k =? n) eqn:E; cbn.
+  - intro H. destruct (IH H). auto.
+  - apply Z.eqb_neq in E. intros [H|H]; [subst; auto | destruct (IH H); auto].
+Qed.
+
+Lemma nodup_del l n : NoDup (map fst l) -> NoDup (map fst (del_prop l n)).
+Proof.
+  induction l as [|[k r] l IH]; cbn; auto.
+  intro H. inversion H; subst. destruct (k =? n); cbn; auto.
+  constructor; auto. intro Hin. apply in_names_del in Hin. tauto.
+Qed.
+
+Lemma nodup_set l n p : NoDup (map fst l) -> NoDup (map fst (set_prop l n p)).
+Proof.
+  intro H. destruct (lookup l n) eqn:E.
+  - erewrite names_set_existing; eauto.
+  - rewrite names_set_new; auto. apply lookup_none_iff in E.
+    apply NoDup_app_remove_l with (l := []) || idtac.
+    clear -H E. induction (map fst l) as [|x xs IH]; cbn.
+    + constructor; [intros []|constructor].
+    + inversion H; subst. constructor.
+      * rewrite in_app_iff. cbn. intros [?|[?|[]]]; [tauto|]. subst. apply E. cbn; auto.
+      * apply IH; auto. intro. apply E. cbn; auto.
+Qed.
+End AssocFacts.
+
+(* ---------- SameValue ---------- *)
+Lemma val_eqb_eq a b : val_eqb a b = true -> a = b.
+Proof.
+  destruct a, b; cbn; try discriminate; auto; intro H;
+    try (apply Z.eqb_eq in H; subst; reflexivity).
+  apply Bool.eqb_prop in H. subst. reflexivity.
+Qed.
+Lemma ogs_eqb_eq a b : ogs_eqb a b = true -> a = b.
+Proof.
+  destruct a, b; cbn; try discriminate; auto. intro H. apply Z.eqb_eq in H. subst. reflexivity.
+Qed.
+
+(* ---------- what may happen to a non-configurable property ---------- *)
+Definition prop_le (p p' : prop) : Prop :=
+  p_conf p = false ->
+  p_conf p' = false /\ p_enum p' = p_enum p /\
+  match p, p' with
+  | PData v w _ _, PData v' w' _ _ => (w = false -> v' = v /\ w' = false)
+  | PAcc g s _ _, PAcc g' s' _ _ => g' = g /\ s' = s
+  | _, _ => False
+  end.
+
+Lemma prop_le_refl p : prop_le p p.
+Proof. intro H. destruct p; cbn in *; auto. Qed.
+
+Lemma prop_le_trans p q r : prop_le p q -> prop_le q r -> prop_le p r.
+Proof.
+  intros H1 H2 Hc. destruct (H1 Hc) as (Hq & He & Hs). destruct (H2 Hq) as (Hr & He' & Hs').
+  split; auto. split; [congruence|].
+  destruct p, q, r; cbn in *; try tauto.
+  - intro Hw. destruct (Hs Hw) as [-> ->]. destruct (Hs' eq_refl) as [-> ->]. auto.
+  - destruct Hs as [-> ->]. destruct Hs' as [-> ->]. auto.
+Qed.
+
+Opaque val_eqb ogs_eqb.
+
+Lemma define_existing_le p d p' : define_existing p d = Some p' -> prop_le p p'.
+Proof.
+  intros H Hc. destruct d as [dv dw dg ds de dc].
+  destruct p as [v w e c|g s e c]; cbn in Hc; subst c.
+  - destruct dv as [v'|]; destruct dw as [[|]|]; destruct dg as [[fg|]|]; destruct ds as [[fs|]|];
+      destruct de as [[|]|]; destruct dc as [[|]|]; destruct e; destruct w; cbn in H; try discriminate;
+      try (destruct (val_eqb v v') eqn:E; cbn in H; try discriminate; apply val_eqb_eq in E; subst v');
+      inversion H; subst; cbn; repeat split; auto; try discriminate.
+  - destruct dv as [v'|]; destruct dw as [[|]|]; destruct dg as [[fg|]|]; destruct ds as [[fs|]|];
+      destruct de as [[|]|]; destruct dc as [[|]|]; destruct e; cbn in H; try discriminate;
+      repeat match type of H with
+             | context [ogs_eqb ?a ?b] => destruct (ogs_eqb a b) eqn:?E; cbn in H; try discriminate;
+                                          apply ogs_eqb_eq in E; subst
+             end;
+      inversion H; subst; cbn; repeat split; auto.
+Qed.
+
+Transparent val_eqb ogs_eqb.
+
+(* ---------- what may happen to an object ---------- *)
+Definition nodup_obj (o : obj) : Prop := NoDup (own_names o).
+
+Definition obj_le (o o' : obj) : Prop :=
+  o_proto o' = o_proto o /\
+  (o_ext o = false -> o_ext o' = false /\
+                      forall n, lookup (o_props o') n <> None -> lookup (o_props o) n <> None) /\
+  (forall n p, lookup (o_props o) n = Some p -> p_conf p = false ->
+               exists p', lookup (o_props o') n = Some p' /\ prop_le p p') /\
+  (nodup_obj o -> nodup_obj o').
+
+Lemma obj_le_refl o : obj_le o o.
+Proof.
+  repeat split; auto. intros n p H _. exists p. split; auto. apply prop_le_refl.
+Qed.
+
+Lemma obj_le_trans a b c : obj_le a b -> obj_le b c -> obj_le a c.
+Proof.
+  intros (P1 & E1 & C1 & N1) (P2 & E2 & C2 & N2). split; [congruence|]. split; [|split].
+  - intro He. destruct (E1 He) as [Hb Hn]. destruct (E2 Hb) as [Hc Hn']. split; auto.
+  - intros n p Hl Hc. destruct (C1 n p Hl Hc) as (q & Hq & Hpq).
+    destruct (Hpq Hc) as (Hqc & _). destruct (C2 n q Hq Hqc) as (r & Hr & Hqr).
+    exists r. split; auto. eapply prop_le_trans; eauto.
+  - auto.
+Qed.
+
+Lemma define_own_le o n d o' : define_own o n d = Some o' -> obj_le o o'.
+Proof.
+  unfold define_own. destruct (lookup (o_props o) n) as [p|] eqn:L.
+  - destruct (define_existing p d) as [p'|] eqn:D; [|discriminate].
+    intro H. inversion H; subst o'; clear H. split; [reflexivity|]. cbn. split; [|split].
+    + intro He. split; auto. intros m Hm. destruct (Z.eq_dec m n) as [->|Hne]; [congruence|].
+      rewrite lookup_set_other in Hm; auto.
+    + intros m q Hq Hc. destruct (Z.eq_dec m n) as [->|Hne].
+      * rewrite lookup_set_same. exists p'. split; auto.
+        assert (q = p) by congruence. subst q. eapply define_existing_le; eauto.
+      * rewrite lookup_set_other; auto. exists q. split; auto. apply prop_le_refl.
+    + unfold nodup_obj, own_names. cbn. apply nodup_set.
+  - destruct (o_ext o) eqn:He; [|discriminate].
+    intro H. inversion H; subst o'; clear H. split; [reflexivity|]. cbn. split; [|split].
+    + intro. congruence.
+    + intros m q Hq Hc. destruct (Z.eq_dec m n) as [->|Hne]; [congruence|].
+      rewrite lookup_set_other; auto. exists q. split; auto. apply prop_le_refl.
+    + unfold nodup_obj, own_names. cbn. apply nodup_set.
+Qed.
+
+Lemma delete_own_le o n : obj_le o (fst (delete_own o n)).
+Proof.
+  unfold delete_own. destruct (lookup (o_props o) n) as [p|] eqn:L; [|apply obj_le_refl].
+  destruct (p_conf p) eqn:Hc; [|apply obj_le_refl]. cbn.
+  split; [reflexivity|]. cbn. split; [|split].
+  - intro He. split; auto. intros m Hm. destruct (Z.eq_dec m n) as [->|Hne].
+    + rewrite lookup_del_same in Hm. congruence.
+    + rewrite lookup_del_other in Hm; auto.
+  - intros m q Hq Hcq. destruct (Z.eq_dec m n) as [->|Hne]; [congruence|].
+    rewrite lookup_del_other; auto. exists q. split; auto. apply prop_le_refl.
+  - unfold nodup_obj, own_names. cbn. apply nodup_del.
+Qed.
+
+Lemma prevent_le o : obj_le o (mkO (o_proto o) false (o_props o)).
+Proof.
+  split; [reflexivity|]. cbn. split; [|split]; auto.
+  intros n p H _. exists p. split; auto. apply prop_le_refl.
+Qed.
+
+Lemma define_seq_le l : forall o, obj_le o (fst (define_seq o l)).
+Proof.
+  induction l as [|[n d] l IH]; intro o; cbn; [apply obj_le_refl|].
+  destruct (define_own o n d) as [o'|] eqn:D; [|apply obj_le_refl].
+  eapply obj_le_trans; [eapply define_own_le; eauto | apply IH].
+Qed.
+
+Lemma restrict_le f o : obj_le o (restrict f o).
+Proof.
+  unfold restrict. eapply obj_le_trans; [apply define_seq_le | apply prevent_le].
+Qed.
+
+(* ---------- heaps ---------- *)
+Lemma length_upd {A} (h : list A) a x : length (upd h a x) = length h.
+Proof. revert a. induction h as [|y h IH]; intros [|k]; cbn; auto. Qed.
+
+Lemma nth_error_upd_same {A} (h : list A) a x : (a < length h)%nat -> nth_error (upd h a x) a = Some x.
+Proof. revert a. induction h as [|y h IH]; intros [|k]; cbn; intro H; try lia; auto. apply IH. lia. Qed.
+
+Lemma nth_error_upd_other {A} (h : list A) a b x : a <> b -> nth_error (upd h a x) b = nth_error h b.
+Proof. revert a b. induction h as [|y h IH]; intros [|k] [|j]; cbn; intro H; try congruence; auto. Qed.
+
+Lemma upd_out {A} (h : list A) a x : (length h <= a)%nat -> upd h a x = h.
+Proof. revert a. induction h as [|y h IH]; intros [|k]; cbn; intro H; try lia; auto. f_equal. apply IH. lia. Qed.
+
+Lemma nth_of_nth_error {A} (h : list A) a x d : nth_error h a = Some x -> nth a h d = x.
+Proof. intro H. apply nth_error_nth. exact H. Qed.
+
+Lemma Forall_upd {A} (P : A -> Prop) (h : list A) a x : Forall P h -> P x -> Forall P (upd h a x).
+Proof.
+  intros H Hx. revert a. induction H; intros [|k]; cbn; auto.
+Qed.
+
+Definition heap_le (h h' : heap) : Prop :=
+  (forall a o, nth_error h a = Some o -> exists o', nth_error h' a = Some o' /\ obj_le o o') /\
+  (Forall nodup_obj h -> Forall nodup_obj h').
+
+Lemma heap_le_refl h : heap_le h h.
+Proof. split; auto. intros a o H. exists o. split; auto. apply obj_le_refl. Qed.
+
+Lemma heap_le_trans a b c : heap_le a b -> heap_le b c -> heap_le a c.
+Proof.
+  intros [H1 N1] [H2 N2]. split; auto. intros x o Ho.
+  destruct (H1 x o Ho) as (o' & Ho' & L1). destruct (H2 x o' Ho') as (o'' & Ho'' & L2).
+  exists o''. split; auto. eapply obj_le_trans; eauto.
+Qed.
+
+Lemma nodup_empty : nodup_obj empty_obj.
+Proof. constructor. Qed.
+
+Lemma nodup_nth h a : Forall nodup_obj h -> nodup_obj (nth a h empty_obj).
+Proof.
+  intro H. destruct (nth_error h a) as [o|] eqn:E.
+  - rewrite (nth_of_nth_error _ _ _ _ E). eapply Forall_forall; eauto. eapply nth_error_In; eauto.
+  - apply nth_error_None in E. rewrite nth_overflow; auto. apply nodup_empty.
+Qed.
+
+Lemma upd_le h a o' : obj_le (nth a h empty_obj) o' -> heap_le h (upd h a o').
+Proof.
+  intro H. split.
+  - intros b o Ho. destruct (Nat.eq_dec a b) as [->|Hne].
+    + exists o'. split.
+      * apply nth_error_upd_same. apply nth_error_Some. congruence.
+      * rewrite (nth_of_nth_error _ _ _ _ Ho) in H. exact H.
+    + exists o. rewrite nth_error_upd_other; auto. split; auto. apply obj_le_refl.
+  - intro N. apply Forall_upd; auto. destruct H as (_ & _ & _ & Hn). apply Hn. apply nodup_nth. exact N.
+Qed.
+
+Lemma app_le h o : nodup_obj o -> heap_le h (h ++ [o]).
+Proof.
+  intro Hn. split.
+  - intros a x Hx. exists x. split; [|apply obj_le_refl].
+    rewrite nth_error_app1; auto. apply nth_error_Some. congruence.
+  - intro N. apply Forall_app. split; auto.
+Qed.
+
+Lemma put_le h a n v : heap_le h (fst (put h a n v)).
+Proof.
+  unfold put. destruct (nth_error h a) as [o|] eqn:Ho; [|apply heap_le_refl].
+  destruct (negb (can_put h a n)); [apply heap_le_refl|].
+  assert (Hdef : forall d, heap_le h (fst (match define_own o n d with
+                                             | Some o' => (upd h a o', @nil Z) | None => (h, []) end))).
+  { intro d. destruct (define_own o n d) as [o'|] eqn:D; [|apply heap_le_refl].
+    cbn. apply upd_le. rewrite (nth_of_nth_error _ _ _ _ Ho). eapply define_own_le; eauto. }
+  destruct (lookup (o_props o) n) as [[v0 w e c|g s e c]|].
+  - apply Hdef.
+  - destruct (get_property_of h o n) as [[? ? ? ?|? [f|] ? ?]|]; try apply heap_le_refl; apply Hdef.
+  - destruct (get_property_of h o n) as [[? ? ? ?|? [f|] ? ?]|]; try apply heap_le_refl; apply Hdef.
+Qed.
+
+Lemma forin_del_walk_le names : forall h a at_n a2 del_n chain visited,
+  heap_le h (fst (forin_del_walk names h a at_n a2 del_n chain visited)).
+Proof.
+  induction names as [|n rest IH]; intros; cbn; [apply heap_le_refl|].
+  match goal with |- context [if ?c then _ else _] => destruct c end; [apply IH|].
+  destruct (n =? at_n); [|apply IH].
+  eapply heap_le_trans; [|apply IH]. apply upd_le. apply delete_own_le.
+Qed.
+
+Lemma define_seq_nodup l o : nodup_obj o -> nodup_obj (fst (define_seq o l)).
+Proof. intro H. destruct (define_seq_le l o) as (_ & _ & _ & Hn). auto. Qed.
+
+(* every operation moves every existing object along obj_le *)
+Theorem step_le s o : heap_le (s_heap s) (s_heap (fst (step s o))).
+Proof.
+  destruct o as [i n r|i l|i p l|i n v|i n|i|i|i|i at_n i2 del_n]; cbn [step].
+  - destruct (to_desc r) as [d|]; [|apply heap_le_refl].
+    destruct (define_own (the_obj s (var s i)) n d) as [o'|] eqn:D; [|apply heap_le_refl].
+    cbn. apply upd_le. eapply define_own_le; eauto.
+  - destruct (convert_all l) as [ds|]; [|apply heap_le_refl].
+    destruct (define_seq (the_obj s (var s i)) ds) as [o' threw] eqn:D. cbn.
+    apply upd_le. change o' with (fst (o', threw)). rewrite <- D. apply define_seq_le.
+  - destruct (convert_all (odef l [])) as [ds|]; [|apply heap_le_refl].
+    destruct (define_seq _ ds) as [o' threw] eqn:D. destruct threw; [apply heap_le_refl|]. cbn.
+    apply app_le. change o' with (fst (o', false)). rewrite <- D. apply define_seq_nodup. constructor.
+  - destruct (put (s_heap s) (var s i) n v) as [h' log] eqn:P. cbn.
+    change h' with (fst (h', log)). rewrite <- P. apply put_le.
+  - destruct (delete_own (the_obj s (var s i)) n) as [o' r] eqn:D. cbn.
+    apply upd_le. change o' with (fst (o', r)). rewrite <- D. apply delete_own_le.
+  - cbn. apply upd_le. apply restrict_le.
+  - cbn. apply upd_le. apply restrict_le.
+  - cbn. apply upd_le. apply prevent_le.
+  - match goal with |- context [forin_del_walk ?a ?b ?c ?d ?e ?f ?g ?h] =>
+      destruct (forin_del_walk a b c d e f g h) as [h' vis] eqn:W end. cbn.
+    change h' with (fst (h', vis)). rewrite <- W. apply forin_del_walk_le.
+Qed.
+
+Theorem exec_le ops : forall s, heap_le (s_heap s) (s_heap (exec s ops)).
+Proof.
+  induction ops as [|o ops IH]; intro s; cbn; [apply heap_le_refl|].
+  eapply heap_le_trans; [apply step_le | apply IH].
+Qed.
+
+(* ---------- the laws, for every finite history ---------- *)
+Definition own_prop (s : state) (a : nat) (n : Z) : option prop :=
+  match nth_error (s_heap s) a with Some o => lookup (o_props o) n | None => None end.
+Definition ext_of (s : state) (a : nat) : option bool :=
+  match nth_error (s_heap s) a with Some o => Some (o_ext o) | None => None end.
+
+Lemma history_obj_le s ops a o :
+  nth_error (s_heap s) a = Some o ->
+  exists o', nth_error (s_heap (exec s ops)) a = Some o' /\ obj_le o o'.
+Proof. intro H. destruct (exec_le ops s) as [L _]. apply L. exact H. Qed.
+
+(* a non-configurable property is never deleted or re-shaped *)
+Theorem nonconfigurable_persistent s ops a n p :
+  own_prop s a n = Some p -> p_conf p = false ->
+  exists p', own_prop (exec s ops) a n = Some p' /\
+    p_conf p' = false /\ p_enum p' = p_enum p /\
+    match p, p' with
+    | PData v w _ _, PData v' w' _ _ => (w = false -> v' = v /\ w' = false)
+    | PAcc g s _ _, PAcc g' s' _ _ => g' = g /\ s' = s
+    | _, _ => False
+    end.
+Proof.
+  unfold own_prop. destruct (nth_error (s_heap s) a) as [o|] eqn:Ho; [|discriminate].
+  intros Hl Hc. destruct (history_obj_le s ops a o Ho) as (o' & Ho' & (_ & _ & C & _)).
+  destruct (C n p Hl Hc) as (p' & Hp' & Hle). exists p'. rewrite Ho'. split; auto.
+Qed.
+
+(* a non-writable (and non-configurable) value never changes *)
+Theorem nonwritable_value_constant s ops a n v e :
+  own_prop s a n = Some (PData v false e false) ->
+  own_prop (exec s ops) a n = Some (PData v false e false).
+Proof.
+  intro H. destruct (nonconfigurable_persistent s ops a n _ H eq_refl) as (p' & Hp' & Hc & He & Hs).
+  rewrite Hp'. destruct p' as [v' w' e' c'|]; [|contradiction]. cbn in *.
+  destruct (Hs eq_refl) as [-> ->]. subst. reflexivity.
+Qed.
+
+(* a non-extensible object never gains properties and never becomes extensible again *)
+Theorem nonextensible_no_growth s ops a n :
+  ext_of s a = Some false ->
+  ext_of (exec s ops) a = Some false /\
+  (own_prop (exec s ops) a n <> None -> own_prop s a n <> None).
+Proof.
+  unfold ext_of, own_prop. destruct (nth_error (s_heap s) a) as [o|] eqn:Ho; [|discriminate].
+  intro He. inversion He as [He']. destruct (history_obj_le s ops a o Ho) as (o' & Ho' & (_ & E & _ & _)).
+  rewrite Ho'. destruct (E He') as [Hx Hn]. split; [congruence | apply Hn].
+Qed.
+
+(* a frozen object is a fixed point of every history *)
+Lemma lookup_in {P} (l : list (Z * P)) n p : lookup l n = Some p -> In (n, p) l.
+Proof.
+  induction l as [|[k q] l IH]; cbn; [discriminate|].
+  destruct (k =? n) eqn:E; intro H; [apply Z.eqb_eq in E; inversion H; subst; auto | auto].
+Qed.
+
+Theorem frozen_is_fixed_point s ops a o :
+  nth_error (s_heap s) a = Some o -> is_frozen o = true ->
+  exists o', nth_error (s_heap (exec s ops)) a = Some o' /\
+    o_proto o' = o_proto o /\ o_ext o' = false /\
+    forall n, lookup (o_props o') n = lookup (o_props o) n.
+Proof.
+  intros Ho Hf. destruct (history_obj_le s ops a o Ho) as (o' & Ho' & (P & E & C & _)).
+  exists o'. split; auto. split; auto.
+  unfold is_frozen in Hf. apply andb_true_iff in Hf. destruct Hf as [He Hall].
+  apply negb_true_iff in He. destruct (E He) as [He' Hn]. split; auto.
+  intro n. destruct (lookup (o_props o) n) as [p|] eqn:L.
+  - rewrite forallb_forall in Hall.
+    specialize (Hall _ (lookup_in _ _ _ L)). cbn in Hall. apply andb_true_iff in Hall. destruct Hall as [Hc Hw].
+    apply negb_true_iff in Hc. apply negb_true_iff in Hw.
+    destruct (C n p L Hc) as (p' & Hp' & Hle). rewrite Hp'. f_equal.
+    destruct (Hle Hc) as (Hc' & He'' & Hs).
+    destruct p as [v w e c|g s0 e c], p' as [v' w' e' c'|g' s' e' c']; cbn in *; try contradiction; subst.
+    + destruct (Hs eq_refl) as [-> ->]. reflexivity.
+    + destruct Hs as [-> ->]. reflexivity.
+  - destruct (lookup (o_props o') n) eqn:L'; auto. exfalso. apply (Hn n); congruence.
+Qed.
+
+(* ---------- enumeration ---------- *)
+Definition reachable (s : state) : Prop := exists ops, s = exec init ops.
+
+Lemma exec_app ops1 : forall s ops2, exec s (ops1 ++ ops2) = exec (exec s ops1) ops2.
+Proof. induction ops1 as [|o ops1 IH]; intros; cbn; auto. Qed.
+
+Lemma init_nodup : Forall nodup_obj (s_heap init).
+Proof. repeat constructor. Qed.
+
+Theorem reachable_nodup s : reachable s -> Forall nodup_obj (s_heap s).
+Proof. intros [ops ->]. destruct (exec_le ops init) as [_ N]. apply N. apply init_nodup. Qed.
+
+Lemma nodup_map_filter {A} (f : A -> bool) (l : list (Z * A)) :
+  NoDup (map fst l) -> NoDup (map fst (filter (fun np => f (snd np)) l)).
+Proof.
+  induction l as [|[k q] l IH]; cbn; auto. intro H. inversion H; subst.
+  destruct (f q); cbn; auto. constructor; auto.
+  intro Hin. apply H2. apply in_map_iff in Hin. destruct Hin as ([k' q'] & <- & Hin).
+  apply filter_In in Hin. apply in_map_iff. exists (k', q'). tauto.
+Qed.
+
+(* Object.keys / getOwnPropertyNames never list a name twice, in any reachable state *)
+Theorem keys_nodup s a o : reachable s -> nth_error (s_heap s) a = Some o ->
+  NoDup (own_names o) /\ NoDup (own_keys o).
+Proof.
+  intros R Ho. assert (N : nodup_obj o).
+  { eapply Forall_forall; [apply reachable_nodup; eauto | eapply nth_error_In; eauto]. }
+  split; auto. unfold own_keys. apply (nodup_map_filter p_enum). exact N.
+Qed.
+
+Lemma memz_in n l : memz n l = true <-> In n l.
+Proof.
+  unfold memz. rewrite existsb_exists. split.
+  - intros (x & Hin & E). apply Z.eqb_eq in E. subst. auto.
+  - intro H. exists n. split; auto. apply Z.eqb_refl.
+Qed.
+
+Lemma NoDup_app_iff_local {A} (l1 l2 : list A) :
+  NoDup l1 -> NoDup l2 -> (forall x, In x l1 -> In x l2 -> False) -> NoDup (l1 ++ l2).
+Proof.
+  intros N1 N2 D. induction N1 as [|x l1 Hx N1 IH]; cbn; auto.
+  constructor.
+  - rewrite in_app_iff. intros [H|H]; [auto | apply (D x); cbn; auto].
+  - apply IH. intros y H1 H2. apply (D y); cbn; auto.
+Qed.
+
+(* for-in (12.6.4) visits no name twice and no name of the shadow set *)
+Lemma forin_nodup h : Forall nodup_obj h -> forall fuel a seen,
+  NoDup (forin fuel h a seen) /\ forall n, In n (forin fuel h a seen) -> ~ In n seen.
+Proof.
+  intros N fuel. induction fuel as [|k IH]; intros a seen; cbn.
+  - split; [constructor | intros n []].
+  - destruct (nth_error h a) as [o|] eqn:Ho; [|split; [constructor | intros n []]].
+    assert (No : nodup_obj o) by (eapply Forall_forall; [exact N | eapply nth_error_In; eauto]).
+    set (own := map fst (filter (fun np => p_enum (snd np) && negb (memz (fst np) seen)) (o_props o))).
+    assert (Hown : forall n, In n own -> In n (own_names o) /\ ~ In n seen).
+    { intros n Hin. apply in_map_iff in Hin. destruct Hin as ([k' q] & <- & Hin).
+      apply filter_In in Hin. destruct Hin as [Hin Hc]. cbn in *. apply andb_true_iff in Hc.
+      destruct Hc as [_ Hm]. apply negb_true_iff in Hm. split.
+      - apply in_map_iff. exists (k', q). auto.
+      - intro Hs. apply memz_in in Hs. congruence. }
+    assert (Nown : NoDup own).
+    { unfold own. clear -No. unfold nodup_obj, own_names in No.
+      induction (o_props o) as [|[k' q] l IHl]; cbn; [constructor|]. cbn in No. inversion No; subst.
+      destruct (p_enum q && negb (memz k' seen)); cbn; auto. constructor; auto.
+      intro Hin. apply H1. apply in_map_iff in Hin. destruct Hin as ([k2 q2] & <- & Hin).
+      apply filter_In in Hin. apply in_map_iff. exists (k2, q2). tauto. }
+    destruct (o_proto o) as [pa|].
+    + destruct (IH pa (seen ++ own_names o)) as [Nrest Hrest]. split.
+      * apply NoDup_app_iff_local; auto.
+        intros n H1 H2. apply (Hrest n H2). apply in_app_iff. right. apply (Hown n H1).
+      * intros n Hin. apply in_app_iff in Hin. destruct Hin as [Hin|Hin].
+        -- apply (Hown n Hin).
+        -- intro Hs. apply (Hrest n Hin). apply in_app_iff. auto.
+    + rewrite app_nil_r. split; auto. intros n Hin. apply (Hown n Hin).
+Qed.
+
+(* a name whose deletion succeeded is not listed by keys / getOwnPropertyNames and is not an own property *)
+Theorem deleted_not_enumerated o n o' :
+  delete_own o n = (o', true) ->
+  lookup (o_props o') n = None /\ ~ In n (own_names o') /\ ~ In n (own_keys o').
+Proof.
+  unfold delete_own. intro H.
+  assert (L : lookup (o_props o') n = None).
+  { destruct (lookup (o_props o) n) as [p|] eqn:L.
+    - destruct (p_conf p); inversion H; subst. cbn. apply lookup_del_same.
+    - inversion H; subst. exact L. }
+  split; auto. assert (Hn : ~ In n (own_names o')) by (apply lookup_none_iff; exact L).
+  split; auto. intro Hin. apply Hn. unfold own_keys in Hin. apply in_map_iff in Hin.
+  destruct Hin as ([k q] & <- & Hin). apply filter_In in Hin. apply in_map_iff. exists (k, q). tauto.
+Qed.
+
+(* delete never removes a non-configurable property and says so *)
+Theorem delete_nonconfigurable o n p :
+  lookup (o_props o) n = Some p -> p_conf p = false -> delete_own o n = (o, false).
+Proof. unfold delete_own. intros -> ->. reflexivity. Qed.
+
+(* an accessor inherited from the prototype chain governs assignment: the heap is untouched,
+   the setter (if any) is called on the receiver *)
+Theorem inherited_accessor_governs_put h a o pa n v g s e c :
+  nth_error h a = Some o -> lookup (o_props o) n = None -> o_proto o = Some pa ->
+  get_property (length h) h pa n = Some (PAcc g s e c) ->
+  put h a n v = (h, match s with Some f => [f + 1; Z.of_nat a; enc_val v] | None => [] end).
+Proof.
+  intros Ho L P G. unfold put, can_put, get_property_of. rewrite Ho, L, P, G.
+  destruct s; reflexivity.
+Qed.
+
+(* assignment never touches a non-writable own data property, and never adds to a
+   non-extensible object *)
+Theorem put_nonwritable h a o n v v0 e c :
+  nth_error h a = Some o -> lookup (o_props o) n = Some (PData v0 false e c) ->
+  put h a n v = (h, []).
+Proof. intros Ho L. unfold put, can_put. rewrite Ho, L. reflexivity. Qed.
